@@ -27,12 +27,12 @@ def run(ctx):
         prog, info = load_program(cfg, "e57")
         ctx.configs[cfg] = info
         ctx.cfg = cfg
-        io_rules.no_dropped_results(ctx, prog, "R1")
-        io_rules.raw_transfer_discipline(ctx, prog, "R2")
-        io_rules.success_implies_flushed(ctx, prog, "R3")
-        io_rules.converter_tables(ctx, prog, "R4")
-        io_rules.no_error_turned_into_success(ctx, prog, "R5")
-        cache_rules.invalidate_on_clobber(ctx, prog, cache_rules.PR, rule="R6")
-        cache_rules.validate_before_publish(ctx, prog, cache_rules.PR, "table" if cfg == "lib" else "crate", rule="R6")
+        ctx.call(io_rules.no_dropped_results, prog, "R1")
+        ctx.call(io_rules.raw_transfer_discipline, prog, "R2")
+        ctx.call(io_rules.success_implies_flushed, prog, "R3")
+        ctx.call(io_rules.converter_tables, prog, "R4")
+        ctx.call(io_rules.no_error_turned_into_success, prog, "R5")
+        ctx.call(cache_rules.invalidate_on_clobber, prog, cache_rules.PR, rule="R6")
+        ctx.call(cache_rules.validate_before_publish, prog, cache_rules.PR, "table" if cfg == "lib" else "crate", rule="R6")
     ctx.cfg = None
-    io_rules.controls(ctx)
+    ctx.call(io_rules.controls)
